@@ -37,7 +37,7 @@ struct tcfg { enum kind kind; unsigned sp_off; unsigned pages; char name[16]; in
               uint64_t sp; volatile int go_exit; pthread_t th; pid_t tid; };
 static struct tcfg T[MAXT]; static int NT;
 static volatile uint64_t *SH;           /* shared page */
-static volatile int ready;
+static volatile int ready; static int main_exits;
 extern char blk_after_syscall[], spin_loop[];
 
 static void on_rt(int sig, siginfo_t *si, void *uc) {
@@ -133,6 +133,8 @@ int main(int argc, char **argv) {
       close(fd); fl += snprintf(facts + fl, sizeof facts - fl, " file=%lx", (unsigned long)m);
     } else if (sscanf(line, "appmem %u %u %u", &u1, &u2, &u3) == 3) {
       fl += snprintf(facts + fl, sizeof facts - fl, " app=%lx:%u", (unsigned long)(A[u1].p + u2), u3);
+    } else if (!strncmp(line, "mainexit", 8)) {
+      main_exits = 1;
     } else if (sscanf(line, "fd %63s", a) == 1) {
       if (!strcmp(a, "file")) open("/proc/self/cmdline", O_RDONLY); else if (!strcmp(a, "dir")) open("/tmp", O_RDONLY | O_DIRECTORY);
       else if (!strcmp(a, "pipe")) { int p[2]; if (pipe(p)) return 4; } else if (!strcmp(a, "socket")) { int sv[2]; socketpair(AF_UNIX, SOCK_STREAM, 0, sv); }
@@ -157,6 +159,7 @@ int main(int argc, char **argv) {
   printf("READY pid=%d shared=/proc/%d/fd/%d blk=%lx spin=%lx", getpid(), getpid(), mfd, (unsigned long)blk_after_syscall, (unsigned long)spin_loop);
   for (int i = 0; i < NT; i++) printf(" t%d.tid=%d", i, T[i].tid);
   printf("%s\n", facts); fflush(stdout);
+  if (main_exits) pthread_exit(0);   /* the thread-group leader becomes a zombie, the other threads live on */
   char cmd[64];
   while (fgets(cmd, sizeof cmd, stdin)) {
     unsigned i; if (cmd[0] == 'q') break;
